@@ -179,7 +179,12 @@ def segmentation_sync(c, kind, extra, chunks):
             c.check(True, "sync: same PDU as unsegmented")
             return "fault"
         c.check(False, "sync: fault reply did not raise")
-    got = c.call(client._send_pdu, _request_pdu(), cls)
+    try:
+        got = c.call(client._send_pdu, _request_pdu(), cls)
+    except ValueError:
+        # only acceptable when the unsegmented decode refuses the same bytes
+        c.check(want is None, "sync: same PDU as unsegmented")
+        return "refused"
     c.check(want is not None and struct_eq(got, want), "sync: same PDU as unsegmented")
     c.check(sock.pos == len(data), "sync: whole PDU consumed")
     return c.counter("reads")
@@ -212,9 +217,16 @@ def whole_async(c, kind, extra):
             c.check(True, "async: same PDU as unsegmented")
             return "fault"
         c.check(False, "async: fault reply did not raise")
-    want = _expect(c, data)
-    got = c.call_async(client._send_pdu, _request_pdu(), cls)
-    c.check(struct_eq(got, want), "async: same PDU as unsegmented")
+    try:
+        want = _expect(c, data)
+    except Exception:
+        want = None
+    try:
+        got = c.call_async(client._send_pdu, _request_pdu(), cls)
+    except ValueError:
+        c.check(want is None, "async: same PDU as unsegmented")
+        return "refused"
+    c.check(want is not None and struct_eq(got, want), "async: same PDU as unsegmented")
     sock = FakeSock(c, data, 0)
     sclient = rc.SyncRpcClient.__new__(rc.SyncRpcClient)
     sclient._auth, sclient._sign_header, sclient._sock = None, False, sock
